@@ -216,6 +216,7 @@ type Devices struct {
 	plan    map[string]map[int]Fault
 	Enabled bool
 	sched   *Sched
+	yieldIO bool
 	// write log of the drive: cumulative file size after each write
 	WriteEnds []int64
 	// monitors
@@ -250,7 +251,11 @@ func (d *Devices) ResetCounts() {
 
 // hit counts a call through seam and reports whether a fault fires.
 func (d *Devices) hit(seam string) (Fault, bool) {
-	if d.sched != nil {
+	// Preemption points must be reached by the task's own goroutine in a
+	// deterministic order. Concurrent codecs (lz4, zstd, pgzip, pbzip2) read and
+	// write the drive from helper goroutines with racy read-ahead, so the byte
+	// level seams are preemption points only without compression.
+	if d.sched != nil && (d.yieldIO || (seam != "drive.read" && seam != "drive.write")) {
 		d.sched.Yield(seam)
 	}
 	d.mu.Lock()
@@ -572,11 +577,29 @@ func NewWorld(cfg Config, s *Sched) (*World, error) {
 	}
 	w := &World{Dir: dir, Drive: filepath.Join(dir, "drive.tar"), Index: filepath.Join(dir, "index.sqlite"), Cfg: cfg, Sched: s}
 	w.Dev = NewDevices(s)
+	w.Dev.yieldIO = !asyncCodec(cfg)
 	simhook.InstallOs(w.Dev.osHooks())
 	return w, nil
 }
 
 func (w *World) Close() {
+	if detOn {
+		if b, err := os.ReadFile(w.Drive); err == nil {
+			detNote(fmt.Sprintf("tape %d %s", len(b), sumOf(b)))
+		}
+		w.Dev.mu.Lock()
+		cnt := map[string]int{}
+		for k, v := range w.Dev.Count {
+			// concurrent codecs read ahead / flush from helper goroutines: the
+			// number of byte-level drive calls is not a function of the seed
+			if asyncCodec(w.Cfg) && (k == "drive.read" || k == "drive.write" || k == "drive.seek") {
+				continue
+			}
+			cnt[k] = v
+		}
+		detNote(fmt.Sprintf("seams %v fired %v", cnt, w.Dev.Fired))
+		w.Dev.mu.Unlock()
+	}
 	simhook.InstallOs(nil)
 	os.RemoveAll(w.Dir)
 }
@@ -722,4 +745,15 @@ func copyFile(src, dst string) error {
 
 func isInjected(err error) bool {
 	return err != nil && (errors.Is(err, ErrInjected) || strings.Contains(err.Error(), ErrInjected.Error()))
+}
+
+// asyncCodec reports whether the compression format works with helper
+// goroutines (racy read-ahead on the drive): lz4 and zstandard with
+// concurrency, pgzip, pbzip2.
+func asyncCodec(c Config) bool {
+	switch c.Compression {
+	case "lz4", "zstandard", "parallelgzip", "parallelbzip2":
+		return true
+	}
+	return false
 }
